@@ -75,6 +75,7 @@ def handle : DrvHandler := fun op args =>
       let prematch ← jBool? (← jField? j "prematch")
       let changeReq ← jBool? (← jField? j "changeReq")
       let foreignFins ← jBool? (← jField? j "foreignFins")
+      let constPatch ← jBool? (← jField? j "constPatch")
       let marked ← jBool? (← jField? j "marked")
       let blocked ← jBool? (← jField? j "blocked")
       let now ← jInt? (← jField? j "now")
@@ -90,7 +91,7 @@ def handle : DrvHandler := fun op args =>
         limits := fun i => (C02.lookupD limitsL i).getD { timeout := none, retries := none },
         lifecycle,
         exec := fun i n => ((C02.lookupD oT i).bind (fun rows => (rows.find? (·.1 == n)).map (·.2))).getD missing,
-        prematch, changeReq, foreignFins, lat, cap }
+        prematch, changeReq, foreignFins, constPatch, lat, cap }
       let s0 : State Nat := { P := C02.lookupD pL, base, ess := 0, marked, blocked, gone := false, noticed, fullyHandled, now,
                               pending := true, writes := 0 }
       let (rows, s) := runLoop env univ fuel s0 []
